@@ -84,12 +84,12 @@ def synthetic_system(ctx, tag):
     meter = sess.uid(Unit._by_name["meter"])
     length = ",".join(str(e) for e in Unit._by_name["meter"].dimension.exponents)
     names = {}
-    for k in "ABCD":
+    for k in "ABCDEF":
         nm = "%s%s" % (tag, k)
         res = yield "U\tdefine\td%s\t%s\t%s" % (length, nm, nm)
         if res.startswith("ok\tu"):
             names[k] = int(res.split("\t")[1][1:])
-    if len(names) < 4:
+    if len(names) < 6:
         return None
     qn = ctx.nq
 
@@ -105,6 +105,19 @@ def synthetic_system(ctx, tag):
     yield from eq(names["C"], 1, names["B"])
     yield from eq(names["D"], 5, names["C"])
     yield from eq(names["D"], 60, meter)
+    # declarations whose left-hand side is not `1 * unprefixed unit`:  1 kE = 5000 C  (E = 5 C = 60 m)
+    # and  3 F = 7 m  (F = 7/3 m), made through equate() directly
+    res = yield "U\tpmul\tp10:3\tu%d" % names["E"]
+    if res.startswith("ok\tu"):
+        ke = int(res.split("\t")[1][1:])
+        yield "X\tqnew\ti:1\tu%d" % ke
+        yield "X\tqnew\ti:5000\tu%d" % names["C"]
+        ctx.nq += 2
+        yield "X\tequate\tq%d\tq%d" % (ctx.nq - 2, ctx.nq - 1)
+    yield "X\tqnew\ti:3\tu%d" % names["F"]
+    yield "X\tqnew\ti:7\tu%d" % meter
+    ctx.nq += 2
+    yield "X\tequate\tq%d\tq%d" % (ctx.nq - 2, ctx.nq - 1)
     return names
 
 
